@@ -602,6 +602,7 @@ func parseRaces(stderr string) []raceReport {
 		for i, l := range lines {
 			if strings.Contains(l, " at 0x") && strings.Contains(l, "by goroutine") {
 				owner := ""
+				skipConn := false
 				for _, f := range lines[i+1:] {
 					f = strings.TrimSpace(f)
 					if f == "" {
@@ -613,6 +614,15 @@ func parseRaces(stderr string) []raceReport {
 					// the runtime, the standard library and third-party packages
 					// act on behalf of whoever called them: walk down to the first
 					// frame of the code under test or of the harness
+					if strings.HasPrefix(f, "gosim/seam.ReadBuf") || strings.HasPrefix(f, "gosim/seam.WriteBuf") {
+						// the access conn.Write / conn.Read makes to the caller's buffer is
+						// the caller's: skip the annotation and the method it is made from
+						skipConn = true
+						continue
+					}
+					if skipConn && strings.HasPrefix(f, "gosim/sim.(*Conn).") {
+						continue
+					}
 					if strings.HasPrefix(f, "github.com/tsuna/gohbase") || strings.HasPrefix(f, "gosim/") {
 						owner = f
 						break
